@@ -280,6 +280,21 @@ class RunResult:
     pass
 
 
+class StepCapReached(BaseException):
+    """raised by the harness (not by the library) when a run needs far more solve steps than its specification allows: every
+    workload is bounded by operations, not only by wall time"""
+
+
+class _StepCap:
+    def __init__(self, cap):
+        self.cap, self.n = int(cap), 0
+
+    def on_update_begin(self, ctx):
+        self.n += 1
+        if self.n > self.cap:
+            raise StepCapReached(f"more than {self.cap} solve steps")
+
+
 def run_sim(spec, listeners=(), failpoints=None, device=None, seed_solution=None, keep_dir=False,
             pre_solve=None, workdir=None, options_obj=None):
     """Run tdgl.solve once under the flight recorder. Returns RunResult with
@@ -321,6 +336,8 @@ def run_sim(spec, listeners=(), failpoints=None, device=None, seed_solution=None
         sd = seed_solution.tdgl_data
         seed_before = {f: np.array(getattr(sd, f), copy=True) for f in ("psi", "mu", "supercurrent", "normal_current", "induced_vector_potential", "applied_vector_potential", "epsilon")
                        if isinstance(getattr(sd, f, None), np.ndarray)}
+    if spec.get("max_updates"):
+        listeners = list(listeners) + [_StepCap(spec["max_updates"])]
     rec = Recorder(listeners, failpoints)
     rr.recorder = rec
     rr.solution = None
